@@ -340,10 +340,11 @@ def op_reduce(case, o):
         kw["axis"] = int(axis)
     if keep:
         kw["keepdims"] = True
-    if isinstance(name, list):                      # ["r", f]: np.<f>.reduce
+    kindtag, name = name[0], name[1]
+    if kindtag == "r":                              # ["r", f]: np.<f>.reduce
         kw.setdefault("axis", -1)
         kw2 = {"axis": kw["axis"]}
-        r = UFUNCS[name[1]].reduce(a, **kw2)
+        r = UFUNCS[name].reduce(a, **kw2)
         if keep:
             return ["unsupported"]
     elif o.get("how", "method") == "np":
@@ -365,7 +366,7 @@ def op_scan(case, o):
     elif name.startswith("acc_"):
         r = UFUNCS[name[4:]].accumulate(a, axis=-1)
     elif name == "sort":
-        r = a.sort(axis=-1) if o.get("how", "method") == "method" else np.sort(a, axis=-1)
+        r = a.sort(axis=-1)                      # np.sort is not among the functions the library implements
     elif name == "unique":
         r = np.unique(a, axis=-1)
     elif name == "unique_counts":
